@@ -10,6 +10,7 @@ CONSTANTS
   PPInterval = 2
   TestMode = TRUE
   FaultKinds <- FixedFaults
+  MaxTimed = 2
   MaxEternal = 1
 PROPERTY FaultReported
 CHECK_DEADLOCK FALSE
